@@ -1,5 +1,6 @@
 import Rivaas.Lemmas.BindAll
 import Rivaas.Lemmas.BindAllSound
+import Rivaas.Lemmas.BindAllMulti
 import Rivaas.Spec.BindAll
 import Rivaas.Spec.BindNestJSON
 import Rivaas.Props.C04
@@ -146,6 +147,65 @@ theorem bindAll_meets_spec (P : Params) (hP : FloatSane P) (cfg : Cfg) (tag : Ta
           · obtain ⟨e, he, hn⟩ := h3 n0 hx (by omega)
             exact Or.inr ⟨e, he, hn⟩
           · exact Or.inl hd
+
+/-- the collecting bind returns a well-typed value of the destination type (a field that failed keeps its value) -/
+theorem bindAll_preserves_type (P : Params) (cfg : Cfg) (tag : Tag) (fs : List Fld) (ivs : List Val) (src : Src) (v : Val)
+    (es : List Err) (hw : wts fs ivs = true) (hg : Spec.inGrammarFs fs = true)
+    (h : bindAll P cfg tag (.struct fs) (.struct ivs) src = .done v es) : ∃ rvs, v = .struct rvs ∧ wts fs rvs = true :=
+  lemma_bindAll_typed P cfg tag fs ivs src v es hw hg h
+
+/-- **A collecting bind from several sources meets its oracle** (Bind / BindTo with WithAllErrors, any list of
+    sources): without an error the multi-source oracle holds on the value (last source holding the key, else default,
+    else untouched); otherwise every reported error - of the defaults pass or of any source - is one the statement
+    allows for that pass; never a panic. -/
+theorem bindMultiAll_meets_spec (P : Params) (hP : FloatSane P) (cfg : Cfg) (fs : List Fld) (ivs : List Val)
+    (srcs : List Src) (hw : wts fs ivs = true) (hg : Spec.inGrammarFs fs = true) (hs : ∀ s ∈ srcs, Spec.srcOK s = true) :
+    Spec.specMultiAll P cfg fs (.struct ivs) srcs (toObsAll (bindMultiAll P cfg fs (.struct ivs) srcs)) = true := by
+  have hag := bindMultiAll_agrees P cfg fs (.struct ivs) srcs
+  have hplain := bindMulti_meets_spec P hP cfg fs ivs srcs hw hg hs
+  cases hr : bindMultiAll P cfg fs (.struct ivs) srcs with
+  | panic =>
+    rw [lemma_bindMultiAll_phases] at hr
+    by_cases he : srcs.isEmpty = true
+    · simp [he] at hr
+    · have he' : srcs.isEmpty = false := by simpa using he
+      simp only [he', Bool.false_eq_true, if_false] at hr
+      have := lemma_runAll P hP cfg fs hg (Spec.phasesOf fs srcs) (lemma_phases_srcOK fs srcs hs) ivs hw
+      rw [hr] at this
+      exact absurd this (by simp)
+  | done v es =>
+    cases es with
+    | nil =>
+      simp only [toObsAll, Spec.specMultiAll]
+      rw [hr] at hag
+      cases hb : bindMulti P cfg fs (.struct ivs) srcs with
+      | ok w =>
+        rw [hb] at hag hplain
+        have h' : OutAll.done v [] = OutAll.done w [] := hag
+        cases h'
+        simpa [toObs] using hplain
+      | panic => rw [hb] at hag; cases (hag : OutAll.done v [] = OutAll.panic)
+      | err e =>
+        rw [hb] at hag
+        have h' : OutAll.done v [] = OutAll.panic ∨ ∃ v' es', OutAll.done v [] = OutAll.done v' (e :: es') := hag
+        rcases h' with h | ⟨_, _, h⟩ <;> cases h
+    | cons e0 es' =>
+      simp only [toObsAll, Spec.specMultiAll, List.all_eq_true, Bool.or_eq_true, Bool.and_eq_true, beq_iff_eq]
+      intro e he
+      rw [lemma_bindMultiAll_phases] at hr
+      by_cases hemp : srcs.isEmpty = true
+      · simp only [hemp, if_true, OutAll.done.injEq] at hr
+        rw [← hr.2] at he
+        simp only [List.mem_singleton] at he
+        exact Or.inl ⟨hemp, he⟩
+      · have he' : srcs.isEmpty = false := by simpa using hemp
+        simp only [he', Bool.false_eq_true, if_false] at hr
+        have := lemma_runAll P hP cfg fs hg (Spec.phasesOf fs srcs) (lemma_phases_srcOK fs srcs hs) ivs hw
+        rw [hr] at this
+        obtain ⟨ph, hph, hpe⟩ := this e he
+        right
+        simp only [List.contains_iff_mem, Spec.multiCauses, List.mem_flatMap]
+        exact ⟨ph, hph, lemma_phase_err P cfg fs hg ph (.struct ivs) e hpe⟩
 
 end Rivaas.C04
 
